@@ -10,7 +10,7 @@ import (
 )
 
 // Members / fields / elements: small alphabet so collisions are frequent, plus odd values.
-var Members = []string{"m1", "m2", "m3", "a", "b", "", "0", "10", "007", "x y", "a\r\nb", "\x00", "héllo", "limit", "weights", "-1", "3.14", "abc", "abd"}
+var Members = []string{"m1", "m2", "m3", "a", "b", "", "0", "10", "007", "x y", "a\r\nb", "\x00", "héllo", "limit", "weights", "-1", "3.14", "abc", "abd", "\xff\xfe", "\xff\xfd"}
 
 func Member(t *rapid.T, label string) string {
 	if rapid.IntRange(0, 9).Draw(t, label+"_k") == 0 {
